@@ -13,7 +13,11 @@ import (
 // Item is one top-level definition of a module.
 type Item struct {
 	Name string `json:"n"`
-	Kind string `json:"k"` // fn | let | type
+	// Kind: fn | let | type | sing. A `sing` item K is a singleton `$K = { s: str };` of the module:
+	// singletons are module-level state that cannot be imported; every function of the module
+	// appends its own tag to the log K.s and reads the log back (see Graph.SingDirect), so a
+	// function that runs against the `$K` of another module shows in both modules' logs.
+	Kind string `json:"k"`
 	Pub  bool   `json:"p,omitempty"`
 	// Edge: an "edge function": it calls the edge functions its module imports (so that every
 	// import edge of the graph is exercised at run time) and then reads every other visible name.
@@ -75,6 +79,10 @@ type Graph struct {
 	// ViaValue: functions are called through a local function value (`let h = f; h()`), which
 	// takes the compiler's other name-resolution path (identifier expression instead of call).
 	ViaValue bool `json:"via_value,omitempty"`
+	// SingDirect: functions reach the singletons of their module through the expression `$K`;
+	// default: through a singleton extraction parameter (`fn f(p_K: $K)`), which the call site
+	// does not pass: it is bound when the function is entered.
+	SingDirect bool `json:"sing_direct,omitempty"`
 	// Leaks: uses of names that the using module neither defines nor imports (isolation probes).
 	Leaks []Leak `json:"leaks,omitempty"`
 	// Family names the enumerator that produced the graph (evidence only).
@@ -100,11 +108,30 @@ func (g *Graph) mod(name string) *Mod {
 func (m *Mod) item(name string, typ bool) *Item {
 	for i := range m.Items {
 		it := &m.Items[i]
-		if it.Name == name && (it.Kind == "type") == typ {
+		if it.Kind != "sing" && it.Name == name && (it.Kind == "type") == typ {
 			return it
 		}
 	}
 	return nil
+}
+
+// sings lists the singleton items of the module in declaration order.
+func (m *Mod) sings() []Item {
+	var out []Item
+	for _, it := range m.Items {
+		if it.Kind == "sing" {
+			out = append(out, it)
+		}
+	}
+	return out
+}
+
+// singAccess is the expression through which a function body reaches singleton K of its module.
+func singAccess(g *Graph, name string) string {
+	if g.SingDirect {
+		return "$" + name
+	}
+	return "p_" + name
 }
 
 func (m *Mod) edgeFn() *Item {
@@ -183,6 +210,8 @@ func Render(g *Graph, lk *Link) Rendered {
 				emit(fmt.Sprintf("%stype %s = { %s: str };", pub, it.Name, typeField(it.Name, m.Name)))
 			case "let":
 				emit(fmt.Sprintf("%slet %s = \"%s.%s\";", pub, it.Name, m.Name, it.Name))
+			case "sing":
+				emit(fmt.Sprintf("$%s = { s: str };", it.Name))
 			}
 		}
 		for _, it := range m.Items {
@@ -193,9 +222,20 @@ func Render(g *Graph, lk *Link) Rendered {
 			if it.Pub {
 				pub = "pub "
 			}
-			emit(fmt.Sprintf("%sfn %s() -> str {", pub, it.Name))
+			sings := m.sings()
+			var params []string
+			if !g.SingDirect {
+				for _, s := range sings {
+					params = append(params, fmt.Sprintf("p_%s: $%s", s.Name, s.Name))
+				}
+			}
+			emit(fmt.Sprintf("%sfn %s(%s) -> str {", pub, it.Name, strings.Join(params, ", ")))
 			for _, w := range lk.writes(g, m.Name, it) {
 				emit(fmt.Sprintf("    %s = %s + \"'\";", w, w))
+			}
+			for _, s := range sings {
+				acc := singAccess(g, s.Name)
+				emit(fmt.Sprintf("    %s.s = %s.s + \"%s.%s;\";", acc, acc, m.Name, it.Name))
 			}
 			var parts []string
 			for i, r := range lk.refs(g, m.Name, it) {
@@ -215,6 +255,12 @@ func Render(g *Graph, lk *Link) Rendered {
 					emit(fmt.Sprintf("    let %s = t%s.%s;", q, q, typeField(r.Item.Name, r.Origin)))
 				}
 				parts = append(parts, q)
+			}
+			// the singleton logs are read last: after every callee has run
+			for _, s := range sings {
+				q := fmt.Sprintf("qs_%s_%s", it.Name, s.Name)
+				emit(fmt.Sprintf("    let %s = %s.s;", q, singAccess(g, s.Name)))
+				parts = append(parts, "\"[\" + "+q+" + \"]\"")
 			}
 			expr := fmt.Sprintf("\"%s.%s(\"", m.Name, it.Name)
 			for i, p := range parts {
@@ -253,6 +299,9 @@ func Render(g *Graph, lk *Link) Rendered {
 				} else {
 					emit(fmt.Sprintf("    println(\"%s=\" + %s);", b.Item.Name, b.Item.Name))
 				}
+			}
+			for _, s := range m.sings() {
+				emit(fmt.Sprintf("    println(\"$%s=\" + $%s.s);", s.Name, s.Name))
 			}
 			emit("    println(\"end\");")
 			emit("}")
@@ -297,6 +346,9 @@ func Describe(g *Graph) string {
 	}
 	if g.ViaValue {
 		parts = append(parts, "(calls through function values)")
+	}
+	if g.SingDirect {
+		parts = append(parts, "(singletons used through `$K` expressions)")
 	}
 	if g.Mut {
 		parts = append(parts, "(functions write to pub and imported globals)")
